@@ -235,7 +235,14 @@ def _integrate(ctx, chk, mod, tck_attr):
             dflow = Flow.of(dom)
             ends = [_tck_end(dflow.expand(e), tck_attr) for e in rets[0].value.elts]
             dom_ok = ends == ["xmin", "xmax"]
-        if ends is None or None in ends:
+        def tck_elem(e):
+            # self._tck[i][j] with literal integers: a definite element of the spline representation
+            return isinstance(e, ast.Subscript) and isinstance(e.value, ast.Subscript) and dotted_name(e.value.value) == "self." + tck_attr \
+                and all(isinstance(x, ast.Constant) or (isinstance(x, ast.UnaryOp) and isinstance(x.operand, ast.Constant)) for x in (e.slice, e.value.slice))
+        if ends is not None and None in ends and all(tck_elem(dflow.expand(e)) for e in rets[0].value.elts):
+            chk.ob("C14.O3", False, where_of(dom, dom.node), "domain() returns %s" % ast.unparse(rets[0].value),
+                   "(first knot, last knot) = (self.%s[0][0], self.%s[0][-1])" % (tck_attr, tck_attr), key="Spline.domain|ends")
+        elif ends is None or None in ends:
             chk.indeterminate("C14.O3", where_of(dom, dom.node), "domain() = %s: not two elements of the knot vector" % (ast.unparse(rets[0].value) if rets else "?"))
         else:
             chk.ob("C14.O3", dom_ok, where_of(dom, dom.node), "domain() returns %s = (%s, %s)" % (ast.unparse(rets[0].value), ends[0], ends[1]),
